@@ -1,3 +1,149 @@
+//! C05 - trader actions never leave the trader under-margined.
+use serde_json::json;
+
+use super::engine_refs::*;
+use crate::obs::pi;
+use crate::refmodel::*;
 use crate::run::{Ctx, Ev};
+use crate::types::*;
 use crate::world::World;
-pub fn step(_ctx: &Ctx, _w: &World, _ev: &mut Ev) {}
+
+pub fn step(ctx: &Ctx, w: &World, ev: &mut Ev) {
+    if w.cfg.kind != WorldKind::Standard {
+        return;
+    }
+    let actor = w.resolve(&ctx.step.actor);
+    let d = w.d;
+    let eng = match &ctx.pre.eng {
+        Some(e) => e.clone(),
+        None => return,
+    };
+    let engine = w.addrs.engine.clone();
+    match &ctx.step.op {
+        Op::Open { vamm, leverage, .. } => {
+            let v = *vamm;
+            // leverage bounds: below 1, or above 1/initial ratio, never succeeds
+            let too_low = *leverage < d;
+            let too_high = u256(*leverage) * u256(eng.initial) > u256(d) * u256(d);
+            let boundary = *leverage == d || *leverage + 1 == d || u256(*leverage) * u256(eng.initial) == u256(d) * u256(d) || (eng.initial > 0 && *leverage == d * d / eng.initial + 1);
+            if too_low || too_high || boundary {
+                ev.eval(true, &("lev", too_low, too_high, boundary, ctx.out.ok), || json!({"open_leverage": leverage.to_string(), "initial_ratio": eng.initial.to_string(), "accepted": ctx.out.ok}));
+            }
+            if ctx.out.ok && (too_low || too_high) {
+                ev.violation("lev_bounds", if too_low { "below_one" } else { "above_max" }, json!({"leverage": leverage.to_string(), "initial_ratio": eng.initial.to_string()}));
+            }
+            if !ctx.out.ok {
+                return;
+            }
+            let p = match ctx.post.position(v, &actor) {
+                Some(p) if p.size != 0 => p.clone(),
+                _ => return,
+            };
+            let class = classify_open(ctx, w).map(|c| c.kind.s()).unwrap_or("unknown");
+            let pp = match pnl_pair_now(w, v, &actor) {
+                Some(x) => x,
+                None => return,
+            };
+            let f = match owed(ctx.post, v, &actor, d) {
+                Some(x) => x,
+                None => return,
+            };
+            let (which, n, pl) = pp.binding();
+            let r = match ratio(p.margin, pl, f, n, d) {
+                Some(x) => x,
+                None => {
+                    ev.count("ref_overflow_skipped");
+                    return;
+                }
+            };
+            let eng2 = ctx.post.eng.clone().unwrap_or_default();
+            let same = eng2.initial == eng2.maintenance;
+            ev.eval(ctx.pre.position(v, &actor).map(|x| x.size != 0).unwrap_or(false) || boundary, &("open", class, which, boundary, same), || {
+                json!({"open": class, "binding_pnl": which, "ratio": r.to_string(), "maintenance": eng2.maintenance.to_string(), "margin": p.margin.to_string(), "notional": n.to_string()})
+            });
+            if which == "twap" {
+                ev.count("ratio_decided_by_twap");
+            }
+            if r < eng2.maintenance as i128 {
+                ev.violation("ratio_ge_maint", &format!("{},{},{}", class, which, if same { "init_eq_maint" } else { "init_ne_maint" }), json!({"ratio": r.to_string(), "maintenance": eng2.maintenance.to_string(), "spot_pnl": pp.spot_pnl.to_string(), "twap_pnl": pp.twap_pnl.to_string()}));
+            }
+            if let Ok(q) = w.q(&engine, json!({"margin_ratio": {"vamm": w.addrs.vamms[v], "trader": actor}})) {
+                let qr = pi(&q);
+                if qr != r {
+                    ev.violation("ratio_query_eq_ref", &format!("{},{}", class, which), json!({"query": qr.to_string(), "reference": r.to_string()}));
+                }
+            }
+        }
+        Op::Withdraw { vamm, amount } => {
+            let v = *vamm;
+            let pos = match ctx.pre.position(v, &actor) {
+                Some(p) => p.clone(),
+                None => return,
+            };
+            let f = match owed(ctx.pre, v, &actor, d) {
+                Some(x) => x,
+                None => return,
+            };
+            let after = pos.margin as i128 - *amount as i128 - f;
+            if !ctx.out.ok {
+                return;
+            }
+            ev.eval(f != 0 || pos.size != 0, &("withdraw", sign(f), after == 0), || json!({"withdraw": amount.to_string(), "margin": pos.margin.to_string(), "funding_owed": f.to_string()}));
+            if after < 0 {
+                ev.violation("withdraw_bad_debt", sign(f), json!({"margin": pos.margin.to_string(), "amount": amount.to_string(), "funding_owed": f.to_string()}));
+                return;
+            }
+            let got = ctx.sent(&engine, &actor);
+            if got != *amount || ctx.inflow(&actor) != *amount {
+                ev.violation("withdraw_exact", "wallet", json!({"requested": amount.to_string(), "received": ctx.inflow(&actor).to_string()}));
+            }
+            if let Some(p2) = ctx.post.position(v, &actor) {
+                if p2.margin as i128 != after {
+                    let diff = p2.margin as i128 - after;
+                    let shape = if diff == f { "diff_eq_funding" } else { "other" };
+                    ev.violation("withdraw_exact", &format!("margin,{}", shape), json!({"margin_after": p2.margin.to_string(), "expected": after.to_string(), "funding_owed": f.to_string()}));
+                }
+                if p2.checkpoint != ctx.post.vamms[v].cum {
+                    ev.violation("withdraw_exact", "checkpoint", json!({"checkpoint": p2.checkpoint.to_string(), "cumulative": ctx.post.vamms[v].cum.to_string()}));
+                }
+                // free collateral afterwards: the engine's own query and the reference
+                if let Ok(q) = w.q(&engine, json!({"free_collateral": {"vamm": w.addrs.vamms[v], "trader": actor}})) {
+                    let fc = pi(&q);
+                    if fc < 0 {
+                        ev.violation("free_coll_nonneg", "query", json!({"free_collateral": fc.to_string()}));
+                    }
+                }
+                if p2.size != 0 {
+                    if let Some(pp) = pnl_pair_now(w, v, &actor) {
+                        let (which, n, pl) = pp.binding();
+                        let e2 = ctx.post.eng.clone().unwrap_or_default();
+                        let acct = p2.margin as i128 + pl;
+                        let minc = acct.min(p2.margin as i128);
+                        let basis = if p2.size > 0 { p2.notional } else { n };
+                        if let Some(req) = mul_div(basis, e2.initial, d) {
+                            let fc_ref = minc - req as i128;
+                            if fc_ref < 0 {
+                                ev.violation("free_coll_nonneg", &format!("reference,{}", which), json!({"free_collateral_ref": fc_ref.to_string(), "margin": p2.margin.to_string(), "pnl": pl.to_string(), "requirement": req.to_string()}));
+                            }
+                        }
+                    }
+                }
+            }
+        }
+        Op::Deposit { vamm, amount } => {
+            if !ctx.out.ok {
+                return;
+            }
+            let v = *vamm;
+            let (a, b) = (ctx.pre.position(v, &actor), ctx.post.position(v, &actor));
+            ev.eval(a.is_some(), &("deposit", a.map(|x| x.size != 0)), || json!({"deposit": amount.to_string()}));
+            let ma = a.map(|x| x.margin).unwrap_or(0);
+            let mb = b.map(|x| x.margin).unwrap_or(0);
+            let wallet = -ctx.delta(&actor);
+            if mb != ma + *amount || wallet != *amount as i128 || ctx.delta(&engine) != *amount as i128 {
+                ev.violation("deposit_exact", "amount", json!({"margin_pre": ma.to_string(), "margin_post": mb.to_string(), "amount": amount.to_string(), "wallet_delta": wallet.to_string(), "vault_delta": ctx.delta(&engine).to_string()}));
+            }
+        }
+        _ => {}
+    }
+}
